@@ -659,6 +659,7 @@ func runConc(args []string) {
 		cn = 2
 	}
 	counters(seed, cn, want, enc)
+	bigMulti(seed, cn, want, enc)
 	bv := rounds
 	if bv > 3 && os.Getenv("VERIF_TIER") != "thorough" {
 		bv = 3
